@@ -22,6 +22,11 @@
 (*            "HEAD"   FetchPayload reads ContentLength bytes from the bodiless answer to a HEAD  *)
 (*            "METRIC" collectMetrics assumes stdResp.Body is the CallbackReader; after           *)
 (*                     compression it is the gzip reader => nil dereference for stream responses  *)
+(*            "ABORT"  mux write-out ignores the error of io.Copy: a streamed body that breaks off *)
+(*                     after its length header was dropped is sent as a complete chunked message  *)
+(*          and one negative control (never present in the pinned tree):                          *)
+(*            "CLONE"  a memory-cache hit gets a copy of the entry's header; without it the        *)
+(*                     filters behind the Proxy write into the cached entry                       *)
 (*                                                                                              *)
 (* What "path unchanged" means (property text: "the backend receives the client's method, path, *)
 (* raw query ... unchanged"):  the request-target is split at the first "?"; the raw query must  *)
@@ -122,8 +127,10 @@ IsSubseq(a, b) == IF a = <<>> THEN TRUE
    via = host:port of the server url it arrived at) and times = their number.                      *)
 
 (* "the selected backend receives the client's ...": at least one request arrives, and no more than
-   the configured attempts (1 without a retry policy) *)
-C_Reach(x)  == x.times >= 1 /\ x.times <= x.cfg.maxAttempts
+   the configured attempts (1 without a retry policy).  cfg.mayHit: the pool has a memory cache and an
+   identical request was answered before on the same pool - then the answer may come from the cache and
+   no backend is selected (the text says nothing about when a cache hits: both are admitted) *)
+C_Reach(x)  == (x.times >= 1 \/ x.cfg.mayHit) /\ x.times <= x.cfg.maxAttempts
 C_Method(x, b) == b.method = x.c.method
 C_Path(x, b)   == PctDecode(PathOf(b.target)) = PctDecode(PathOf(x.c.target))
 C_Query(x, b)  == QueryOf(b.target) = QueryOf(x.c.target)
@@ -172,6 +179,19 @@ C_Framed(x) ==
     /\ x.cr.framing = "cl" => x.cr.declared = x.cr.got
     /\ (x.cr.framing = "none" \/ x.br.nobody) => x.cr.got = 0
 
+(* br.short: the backend's response itself breaks off (it declares Content-Length N and closes the
+   connection after fewer bytes).  There is no complete backend content then; what the text still
+   demands is that the client is not handed a prefix as if it were the backend's body: a success status
+   with a complete, well-framed body whose content coding (if any) can be undone is a truncated success
+   (C07 words the same as "produces an error status rather than a truncated success").  An error
+   status, a message that is visibly incomplete, or a gzip-labelled body that is not a complete gzip
+   stream are all admitted.  (A ResponseAdaptor `body:` replaces the content by design.) *)
+C_Truncated(x) ==
+    /\ x.br.short /\ ~x.cfg.rsaReplaces
+    /\ x.cr.status < 400
+    /\ x.cr.complete /\ x.cr.after # "garbage" /\ (x.cr.framing = "cl" => x.cr.declared = x.cr.got)
+    /\ x.cr.body.decok
+
 (* every attempt must deliver the request faithfully *)
 ReqClauses(x) ==
     (IF \A b \in x.bs : C_Method(x, b) THEN {} ELSE {"method"}) \cup
@@ -183,12 +203,13 @@ ReqClauses(x) ==
     (IF \A b \in x.bs : C_Host(x, b) THEN {} ELSE {"host"})
 
 RespClauses(x) ==
-    (IF C_Framed(x) THEN {} ELSE {"framed"}) \cup
-    (IF ~C_Status(x) THEN {"status"}
-     ELSE (IF C_RespE2E(x) THEN {} ELSE {"respe2e"}) \cup (IF C_Content(x) THEN {} ELSE {"content"}))
+    IF x.br.short THEN (IF C_Truncated(x) THEN {"truncated"} ELSE {})
+    ELSE (IF C_Framed(x) THEN {} ELSE {"framed"}) \cup
+         (IF ~C_Status(x) THEN {"status"}
+          ELSE (IF C_RespE2E(x) THEN {} ELSE {"respe2e"}) \cup (IF C_Content(x) THEN {} ELSE {"content"}))
 
 (* the clauses of C03 that exchange x violates *)
-Violated(x) == IF ~C_Reach(x) THEN {"reach"} \cup (IF C_Framed(x) THEN {} ELSE {"framed"})
+Violated(x) == IF ~C_Reach(x) THEN {"reach"} \cup (IF x.br.short \/ C_Framed(x) THEN {} ELSE {"framed"})
                ELSE ReqClauses(x) \cup RespClauses(x)
 
 (* abstract outcome of an exchange: what the implementation-shaped layer predicts and what is
@@ -210,14 +231,17 @@ Outcome(x) ==
 
 (* a payload in the model: content id, length of the identity content, number of gzip layers around
    it, gzd = bytes one gzip layer adds (may be negative: compressible content), trunc = -1 or the
-   length it was cut to *)
-Payload(id, n, layers, gzd) == [id |-> id, n |-> n, layers |-> layers, gzd |-> gzd, trunc |-> -1]
+   length it was cut to, bad = reading it ends with an error instead of EOF (the source broke off);
+   a bad payload is always a cut one, and every recoding of it (gzip reader, gunzip reader) is bad
+   again: the compress reader passes the error on before it writes the gzip trailer *)
+Payload(id, n, layers, gzd) == [id |-> id, n |-> n, layers |-> layers, gzd |-> gzd, trunc |-> -1, bad |-> FALSE]
 EmptyP == Payload("-", 0, 0, 7)
 FullLen(p) == p.n + p.layers * (IF p.n = 0 THEN 7 ELSE p.gzd)
 BLen(p) == IF p.trunc >= 0 THEN p.trunc ELSE FullLen(p)
-Gz(p)   == [p EXCEPT !.layers = @ + 1]
-Gunz(p) == [p EXCEPT !.layers = @ - 1]
+Gz(p)   == IF p.bad THEN [p EXCEPT !.layers = @ + 1, !.trunc = BLen(p)] ELSE [p EXCEPT !.layers = @ + 1]
+Gunz(p) == IF p.bad THEN [p EXCEPT !.layers = @ - 1, !.trunc = BLen(p)] ELSE [p EXCEPT !.layers = @ - 1]
 CanGunz(p) == p.layers > 0 /\ p.trunc < 0        \* gzip.NewReader + ReadAll succeed
+CutShort(p) == [p EXCEPT !.trunc = FullLen(p) - 1, !.bad = TRUE]     \* the sender stops one byte (at least) early
 
 (* body abstraction of Part 2 for a model payload *)
 Norm(p) == IF BLen(p) = 0 THEN EmptyP ELSE p           \* all empty bodies are the same body
@@ -254,7 +278,12 @@ Decompresses(k) == k = "decompress"
 
 MaxAttempts == 3      \* of the retry policy attached to the pool when first attempts are made to fail
 
-ReqScn == { s \in [addr : {"ip", "ip6", "name"}, keepHost : BOOLEAN,
+(* server url of the pool: IPv4 / bracketed IPv6 literal with a port, the same without a port (default
+   port), host name with a port *)
+AddrKinds == {"ip", "ip6", "ip-np", "ip6-np", "name"}
+AddrIsName(a) == a = "name"         \* Server.checkAddrPattern: the port (if any) and the brackets are stripped, net.ParseIP decides
+
+ReqScn == { s \in [addr : AddrKinds, keepHost : BOOLEAN,
                    ra : AdaptorKinds, rahdr : BOOLEAN, reqMode : {"buf", "stream"},
                    path : 1..Len(Paths), query : 1..Len(Queries), hshape : {"min", "rich"},
                    rbody : {"none", "cl", "chunked"}, renc : {"identity", "gzip"},
@@ -262,15 +291,22 @@ ReqScn == { s \in [addr : {"ip", "ip6", "name"}, keepHost : BOOLEAN,
             /\ s.rbody = "none" => s.renc = "identity"
             /\ s.fails > 0 => s.reqMode = "buf" }         \* a stream request is never retried (by design)
 
-RespScn == [comp : {"off", "low", "high"}, rsa : AdaptorKinds, rsahdr : BOOLEAN,
-            respMode : {"buf", "stream"}, ae : {"absent", "gzip", "identity"}, head : BOOLEAN,
-            status : {200, 404, 503}, bframing : {"cl", "chunked", "close"}, benc : {"identity", "gzip"},
-            bsize : {0, 10, 100}, gzd : {-3, 7}]
+(* cache: the pool has a memoryCache that admits the request's method and the backend's status; the
+          scenario is then a SEQUENCE of RespK identical requests to the same proxy instance
+   short: the backend declares Content-Length N and closes the connection after fewer bytes *)
+RespK == 3
+RespScn == { s \in [comp : {"off", "low", "high"}, rsa : AdaptorKinds, rsahdr : BOOLEAN,
+                    respMode : {"buf", "stream"}, ae : {"absent", "gzip", "identity"}, head : BOOLEAN,
+                    status : {200, 404, 503}, bframing : {"cl", "chunked", "close"}, benc : {"identity", "gzip"},
+                    bsize : {0, 10, 100}, gzd : {-3, 7}, cache : BOOLEAN, short : BOOLEAN] :
+             s.short => (s.bframing = "cl" /\ s.bsize > 0 /\ ~s.head /\ ~s.cache) }
+Reqs(s) == IF s.cache THEN RespK ELSE 1
 
 DefaultReqScn == [addr |-> "ip", keepHost |-> FALSE, ra |-> "none", rahdr |-> FALSE, reqMode |-> "buf", path |-> 1,
                   query |-> 1, hshape |-> "min", rbody |-> "none", renc |-> "identity", fails |-> 0]
 DefaultRespScn == [comp |-> "off", rsa |-> "none", rsahdr |-> FALSE, respMode |-> "buf", ae |-> "absent", head |-> FALSE,
-                   status |-> 200, bframing |-> "cl", benc |-> "identity", bsize |-> 10, gzd |-> 7]
+                   status |-> 200, bframing |-> "cl", benc |-> "identity", bsize |-> 10, gzd |-> 7, cache |-> FALSE,
+                   short |-> FALSE]
 
 (* quick tier: the path/query dimension is explored with the other request dimensions at their
    default and vice versa (prepareRequest treats them independently); one gzip size delta; the
@@ -330,7 +366,7 @@ S_Prepare(m, s, Fixed, n) ==
        THEN [reached |-> FALSE, n |-> n, via |-> ServerHost, method |-> "-", target |-> <<>>, host |-> "-", hdr |-> {},
              conn |-> {}, body |-> Abs(EmptyP, "")]
        ELSE [reached |-> TRUE, n |-> n, via |-> ServerHost, method |-> m.method, target |-> GoRequestURI(u2),
-             host |-> IF s.addr = "name" /\ ~s.keepHost THEN ServerHost ELSE m.host,
+             host |-> IF AddrIsName(s.addr) /\ ~s.keepHost THEN ServerHost ELSE m.host,
              hdr |-> {h \in m.hdr : h.n \notin (HopFixed \cup m.conn)}, conn |-> {},
              body |-> Abs(m.payload, m.label)]
 
@@ -347,9 +383,10 @@ RespHdrs == {H("x-b1", <<"1">>), H("set-cookie", <<"a=1", "b=2">>), H("x-rsa-del
 RespHdrsTouched == (RespHdrs \ {H("x-rsa-del", <<"1">>)}) \cup {H("x-rsa-set", <<"s">>)}
 
 (* the response as the backend writes it *)
+BackendFull(s) == Payload("b-body", s.bsize, IF s.benc = "gzip" THEN 1 ELSE 0, s.gzd)      \* the body the backend means to send
 BackendResp(s) ==
-    LET p == Payload("b-body", s.bsize, IF s.benc = "gzip" THEN 1 ELSE 0, s.gzd) IN
-    [status |-> s.status, kept |-> TRUE, payload |-> p, label |-> IF s.benc = "gzip" THEN "gzip" ELSE "",
+    LET p == BackendFull(s) IN
+    [status |-> s.status, kept |-> TRUE, payload |-> IF s.short THEN CutShort(p) ELSE p, label |-> IF s.benc = "gzip" THEN "gzip" ELSE "",
      clhdr |-> IF s.bframing = "cl" THEN BLen(p) ELSE -1,
      gocl |-> -1,            \* http.Response.ContentLength as the transport reports it
      compressed |-> FALSE,   \* compression.compress replaced the body
@@ -357,14 +394,16 @@ BackendResp(s) ==
      touched |-> FALSE,      \* the ResponseAdaptor's header operations were applied
      panicked |-> FALSE]     \* the handler panicked after the response was set: net/http aborts the connection
 
-BRAbs(r, s) == [status |-> r.status, hdr |-> RespHdrs, conn |-> {}, nobody |-> s.head, body |-> Abs(r.payload, r.label)]
+BRAbs(r, s) == [status |-> r.status, hdr |-> RespHdrs, conn |-> {}, nobody |-> s.head, short |-> s.short,
+                body |-> Abs(BackendFull(s), r.label)]
 
 (* http.Transport.  It asked for gzip itself iff the request it was given has no Accept-Encoding (and
-   is not HEAD); only then it undoes a gzip label, drops Content-Length/-Encoding and reports
-   ContentLength -1.  A response to HEAD has no body but ContentLength = the header's value. *)
+   is not HEAD); only then it undoes a gzip label (lazily: the body becomes a gunzip reader, whatever
+   the bytes turn out to be), drops Content-Length/-Encoding and reports ContentLength -1.  A response
+   to HEAD has no body but ContentLength = the header's value. *)
 S_Transport(r, s) ==
     LET r1 == IF s.head THEN [r EXCEPT !.payload = EmptyP] ELSE r IN
-    IF s.ae = "absent" /\ ~s.head /\ r.label = "gzip" /\ CanGunz(r.payload)
+    IF s.ae = "absent" /\ ~s.head /\ r.label = "gzip" /\ r.payload.layers > 0
     THEN [r1 EXCEPT !.payload = Gunz(@), !.label = "", !.clhdr = -1, !.gocl = -1]
     ELSE [r1 EXCEPT !.gocl = r.clhdr]
 
@@ -387,6 +426,7 @@ S_Fetch(r, s, Fixed) ==
     THEN IF r.compressed /\ "METRIC" \notin Fixed
          THEN [r EXCEPT !.streamed = TRUE, !.failed = TRUE, !.panicked = TRUE]   \* deferred collectMetrics panics
          ELSE [r EXCEPT !.streamed = TRUE]
+    ELSE IF r.payload.bad THEN Failure500                                        \* io.ReadFull / io.ReadAll report the error
     ELSE IF r.gocl > 0 THEN
              IF BLen(r.payload) < r.gocl THEN Failure500
              ELSE IF BLen(r.payload) = r.gocl THEN r
@@ -408,15 +448,17 @@ S_RespAdaptor(r, s, Fixed) ==
                               !.clhdr = IF r2.streamed THEN -1 ELSE BLen(Gz(r2.payload))]
               ELSE r2
     IN IF r.failed THEN r
-       ELSE IF Decompresses(s.rsa) /\ r3.label = "gzip" /\ CanGunz(r3.payload)
+       ELSE IF Decompresses(s.rsa) /\ r3.label = "gzip" /\ (CanGunz(r3.payload) \/ (r3.streamed /\ r3.payload.layers > 0))
             THEN [r3 EXCEPT !.payload = Gunz(@), !.label = "",
                             !.clhdr = IF r3.streamed THEN -1 ELSE BLen(Gunz(r3.payload))]
             ELSE r3
 
 (* mux write-out + net/http server: headers copied, WriteHeader, io.Copy.  With a declared
    Content-Length d the server sends at most d bytes and closes the connection when fewer were
-   written; without one it frames the body itself.  HEAD: no body is sent. *)
-S_Write(r, s) ==
+   written; without one it frames the body itself.  HEAD: no body is sent.  A body that ends with an
+   error makes io.Copy fail: the pinned code ignores it and returns, so net/http terminates a chunked
+   body properly ("ABORT" repaired: the handler aborts the connection instead). *)
+S_Write(r, s, Fixed) ==
     LET n == BLen(r.payload)
         d == r.clhdr
         sent == IF s.head THEN EmptyP ELSE IF d >= 0 /\ n > d THEN [r.payload EXCEPT !.trunc = d] ELSE r.payload
@@ -424,24 +466,52 @@ S_Write(r, s) ==
         body |-> Abs(sent, r.label),
         framing |-> IF s.head THEN "none" ELSE IF d >= 0 THEN "cl" ELSE "auto",
         declared |-> d, got |-> BLen(sent),
-        complete |-> ~r.panicked /\ (s.head \/ d < 0 \/ n >= d), after |-> "ok"]
+        complete |-> ~r.panicked /\ (s.head \/ d < 0 \/ n >= d) /\ ~(~s.head /\ r.payload.bad /\ "ABORT" \in Fixed),
+        after |-> "ok"]
 
-RunResp(s, Fixed) == S_Write(S_RespAdaptor(S_Fetch(S_Compress(S_Transport(BackendResp(s), s), s, Fixed), s, Fixed), s, Fixed), s)
+(* ---- the pool's memory cache ---- *)
+(* ServerPool.doHandle stores what buildResponse produced (status, a copy of the header, the buffered
+   payload) unless the response is a stream or a failure; buildResponseFromCache builds the response of
+   a hit from the entry.  The filters behind the Proxy (ResponseAdaptor) then work on that response;
+   without "CLONE" they work on the entry's own header: label, Content-Length and the adaptor's header
+   operations end up in the cache. *)
+NoEntry == [none |-> TRUE]
+Fetched(s, Fixed) == S_Fetch(S_Compress(S_Transport(BackendResp(s), s), s, Fixed), s, Fixed)
+Storable(r, s) == s.cache /\ ~r.streamed /\ ~r.failed
+EntryOf(r) == [none |-> FALSE, status |-> r.status, payload |-> r.payload, label |-> r.label, clhdr |-> r.clhdr, touched |-> r.touched]
+FromCache(e) == [status |-> e.status, kept |-> TRUE, payload |-> e.payload, label |-> e.label, clhdr |-> e.clhdr, gocl |-> -1,
+                 compressed |-> FALSE, streamed |-> FALSE, failed |-> FALSE, touched |-> e.touched, panicked |-> FALSE]
+AfterHit(e, r, Fixed) == IF "CLONE" \in Fixed THEN e ELSE [e EXCEPT !.label = r.label, !.clhdr = r.clhdr, !.touched = r.touched]
+
+(* the cache entry when request k of the sequence arrives *)
+RECURSIVE EntryAt(_, _, _)
+EntryAt(s, Fixed, k) ==
+    IF k = 1 \/ ~Storable(Fetched(s, Fixed), s) THEN NoEntry
+    ELSE IF k = 2 THEN EntryOf(Fetched(s, Fixed))
+    ELSE LET e == EntryAt(s, Fixed, k - 1) IN AfterHit(e, S_RespAdaptor(FromCache(e), s, Fixed), Fixed)
+
+IsHit(s, Fixed, k) == ~EntryAt(s, Fixed, k).none
+RunRespK(s, Fixed, k) ==
+    IF IsHit(s, Fixed, k) THEN S_Write(S_RespAdaptor(FromCache(EntryAt(s, Fixed, k)), s, Fixed), s, Fixed)
+    ELSE S_Write(S_RespAdaptor(Fetched(s, Fixed), s, Fixed), s, Fixed)
+RunResp(s, Fixed) == RunRespK(s, Fixed, 1)
 
 (* ---- the exchange of a pair of scenarios ---- *)
-Cfg(rs, ps) == [addrIsName |-> rs.addr = "name", keepHost |-> rs.keepHost,
+Cfg(rs, ps, k) == [addrIsName |-> AddrIsName(rs.addr), keepHost |-> rs.keepHost, mayHit |-> ps.cache /\ k > 1,
                 maxAttempts |-> IF rs.fails > 0 THEN MaxAttempts ELSE 1,
                 raReplaces |-> ReplacesBody(rs.ra), raRecodes |-> Compresses(rs.ra) \/ Decompresses(rs.ra),
                 raBody |-> Abs(ReqBodyCfg, "").dec, raTouched |-> IF rs.rahdr THEN {"x-ra-del", "x-ra-set"} ELSE {},
                 rsaReplaces |-> ReplacesBody(ps.rsa), rsaBody |-> Abs(RespBodyCfg, "").dec,
                 rsaTouched |-> IF ps.rsahdr THEN {"x-rsa-del", "x-rsa-set"} ELSE {}]
 
-Exchange(rs, ps, Fixed) ==
-    LET bs == RunReq(rs, Fixed) IN
-    [cfg |-> Cfg(rs, ps), c |-> CAbs(ClientReq(rs)), bs |-> bs, times |-> Cardinality(bs),
+(* request k of the sequence *)
+ExchangeK(rs, ps, Fixed, k) ==
+    LET bs == IF IsHit(ps, Fixed, k) THEN {} ELSE RunReq(rs, Fixed) IN
+    [cfg |-> Cfg(rs, ps, k), c |-> CAbs(ClientReq(rs)), bs |-> bs, times |-> Cardinality(bs),
      br |-> BRAbs(BackendResp(ps), ps),
-     cr |-> IF bs # {} THEN RunResp(ps, Fixed)
-            ELSE S_Write(Failure500, ps)]          \* prepareRequest failed: 500 built by the pool
+     cr |-> IF bs # {} \/ IsHit(ps, Fixed, k) THEN RunRespK(ps, Fixed, k)
+            ELSE S_Write(Failure500, ps, Fixed)]          \* prepareRequest failed: 500 built by the pool
+Exchange(rs, ps, Fixed) == ExchangeK(rs, ps, Fixed, 1)
 
 (* ------------------------------------------------------------------------------------------ *)
 (* Part 4: body limits (C07)                                                                    *)
@@ -451,19 +521,27 @@ Exchange(rs, ps, Fixed) ==
 (* 0 = not set, negative = stream.  "else 4MB": the text leaves open whether 4*10^6 or 4*2^20    *)
 (* bytes are meant, so the default is an interval D = [lo, hi]: a body of at most D.lo bytes must  *)
 (* pass, one of more than D.hi bytes must be refused.  For explicit limits lo = hi.               *)
-RealDefault == [lo |-> 4000000, hi |-> 4194304]
+(* D.gzc / D.gzd bound what one gzip layer may add to a body of n bytes (gzc + n \div gzd; gzd = 0: *)
+(* a constant): when the proxy compresses a response, the limit is applied to the body it holds   *)
+(* (the compressed one); the text does not say which of the two sizes counts, so a response whose  *)
+(* size is below the limit but may exceed it once compressed is not judged.                       *)
+RealDefault == [lo |-> 4000000, hi |-> 4194304, gzc |-> 100, gzd |-> 100]
 
 EffLo(inner, outer, D) == IF inner # 0 THEN inner ELSE IF outer # 0 THEN outer ELSE D.lo
 EffHi(inner, outer, D) == IF inner # 0 THEN inner ELSE IF outer # 0 THEN outer ELSE D.hi
 Streams(inner, outer)  == EffHi(inner, outer, RealDefault) < 0
+GzMax(D, n) == D.gzc + (IF D.gzd = 0 THEN 0 ELSE n \div D.gzd)
 
 (* a message body as sent: enc = "cl" (declared = announced Content-Length, actual may be smaller: a
-   lying length) | "chunked" | "close" (read-to-EOF, responses only); actual = bytes really sent *)
+   lying length) | "chunked" | "close" (read-to-EOF, responses only); actual = bytes really sent;
+   comp (responses only) = the proxy compresses the response (compression section configured, the
+   client accepts gzip) before the limit is applied *)
 Announced(w) == IF w.enc = "cl" THEN w.declared ELSE w.actual
 Short(w)     == w.enc = "cl" /\ w.actual < w.declared
 
 (* request side.  o = [status, forwarded (the backend saw a request), intact (it received exactly the
-   bytes sent), bstatus (what the backend answers when asked)] *)
+   bytes sent), bstatus (what the backend answers when asked)].  The clause holds for EVERY request,
+   whatever was served before it (route cache on or off, first or repeated request). *)
 L_ReqContract(inner, outer, D, w, o) ==
     IF Streams(inner, outer)
     THEN Short(w) \/ (o.forwarded /\ o.intact /\ o.status = o.bstatus)        \* -1 streams a body of any size
@@ -473,45 +551,75 @@ L_ReqContract(inner, outer, D, w, o) ==
               THEN o.forwarded /\ o.intact /\ o.status = o.bstatus              \* up to exactly the limit: passes intact
               ELSE TRUE                                                          \* (lying request length / between the two readings of "4MB")
 
-(* response side.  o = [status, intact (client got exactly the backend's bytes), complete (the response
-   was well-framed and complete), got (body bytes the client received), bstatus] *)
+(* response side.  o = [status, intact (client got exactly the backend's bytes - once a gzip label is
+   undone), complete (the response was well-framed and complete, and a gzip-labelled body is a complete
+   gzip stream), got (body bytes the client received), bstatus] *)
 L_RespContract(inner, outer, D, w, o) ==
     IF ~Streams(inner, outer) /\ Announced(w) > EffHi(inner, outer, D)
     THEN o.status \in 500..599 /\ ~o.intact /\ o.got < w.actual                 \* never delivered, 5xx instead
     ELSE IF Short(w)                                                             \* an error status, never a truncated success
          THEN o.status >= 400 \/ (Streams(inner, outer) /\ ~o.complete)          \* (a stream has sent its status: the
                                                                                  \*  client must at least see a broken message)
-         ELSE IF Streams(inner, outer) \/ Announced(w) <= EffLo(inner, outer, D)
+         ELSE IF Streams(inner, outer)
+                 \/ Announced(w) + (IF w.comp THEN GzMax(D, Announced(w)) ELSE 0) <= EffLo(inner, outer, D)
               THEN o.status = o.bstatus /\ o.intact /\ o.complete                \* delivered (C03)
               ELSE TRUE
+
+(* ---- the scenario space of the model (abstract sizes; the harness scales them) ---- *)
+LimD     == [lo |-> 8, hi |-> 9, gzc |-> 2, gzd |-> 0]
+LimGz    == 2            \* what gzip adds to a body in the model (<= GzMax(LimD, n))
+LimInner == {0, 3, -1}
+LimOuter == {0, 5, -1}
+LimK     == 3            \* requests of one sequence (same scenario, same mux and proxy instance)
+
+(* bodies around the effective limit: L-1, L, L+1, 4L, L/2 (and empty); for streams: small and beyond the default *)
+LimSizes(i, o) == IF EffHi(i, o, LimD) < 0 THEN {0, 1, LimD.hi + 1}
+                  ELSE {0, EffLo(i, o, LimD) \div 2, EffLo(i, o, LimD) - 1, EffLo(i, o, LimD), EffHi(i, o, LimD) + 1,
+                        4 * EffHi(i, o, LimD)}
+
+LimWires(dir, i, o) ==
+    LET comps == IF dir = "resp" THEN BOOLEAN ELSE {FALSE} IN
+    {[enc |-> "cl", declared |-> n, actual |-> n, comp |-> c] : n \in LimSizes(i, o), c \in comps}
+    \cup {[enc |-> "cl", declared |-> n, actual |-> n - 1, comp |-> c] : n \in {x \in LimSizes(i, o) : x > 0}, c \in comps}      \* lying length
+    \cup {[enc |-> e, declared |-> -1, actual |-> m, comp |-> c] : e \in (IF dir = "req" THEN {"chunked"} ELSE {"chunked", "close"}),
+                                                                  m \in LimSizes(i, o), c \in comps}
 
 (* ---- implementation-shaped: Request.FetchPayload / Response.FetchPayload as a function ---- *)
 Min2(a, b) == IF a < b THEN a ELSE b
 (* lim = the value handed to FetchPayload, cl = ContentLength as net/http reports it (-1 unknown),
-   avail = bytes the peer really sends before EOF, dflt = DefaultMaxPayloadSize *)
-FetchPayload(lim, cl, avail, dflt) ==
+   avail = bytes the source delivers, bad = the source then ends with an error instead of EOF (a gzip
+   compress reader over a body that breaks off), dflt = DefaultMaxPayloadSize *)
+FetchPayload(lim, cl, avail, bad, dflt) ==
     LET L == IF lim = 0 THEN dflt ELSE lim IN
     IF L < 0 THEN [k |-> "stream", len |-> avail]
     ELSE IF cl > L THEN [k |-> "toolarge", len |-> 0]
     ELSE IF cl > 0 THEN (IF avail < cl THEN [k |-> "err", len |-> avail] ELSE [k |-> "ok", len |-> cl])
     ELSE IF cl = 0 THEN [k |-> "ok", len |-> 0]
-    ELSE IF Min2(avail, L) < L THEN [k |-> "ok", len |-> avail]           \* io.ReadAll(io.LimitReader(body, L))
+    ELSE IF Min2(avail, L) < L THEN (IF bad THEN [k |-> "err", len |-> avail]
+                                     ELSE [k |-> "ok", len |-> avail])      \* io.ReadAll(io.LimitReader(body, L))
     ELSE IF avail - L > 0 THEN [k |-> "toolarge", len |-> L]              \* probe read found more
+    ELSE IF bad THEN [k |-> "err", len |-> L]                             \* probe read found the error
     ELSE [k |-> "ok", len |-> L]
 
-(* mux.serveHTTP: limit selection and status mapping (the backend answers 200) *)
+(* mux.serveHTTP: limit selection and status mapping (the backend answers 200).  The limit is selected
+   from the route's path and the server spec for every request, also when the route came from the
+   route cache. *)
 L_ReqModel(inner, outer, dflt, w) ==
-    LET f == FetchPayload(IF inner # 0 THEN inner ELSE outer, IF w.enc = "cl" THEN w.declared ELSE -1, w.actual, dflt) IN
+    LET f == FetchPayload(IF inner # 0 THEN inner ELSE outer, IF w.enc = "cl" THEN w.declared ELSE -1, w.actual, FALSE, dflt) IN
     CASE f.k = "toolarge" -> [status |-> 413, forwarded |-> FALSE, intact |-> FALSE, bstatus |-> 200]
       [] f.k = "err"      -> [status |-> 400, forwarded |-> FALSE, intact |-> FALSE, bstatus |-> 200]
       [] f.k = "stream"   -> [status |-> IF Short(w) THEN 499 ELSE 200,      \* client gone: 499 (or 503, a race)
                               forwarded |-> TRUE, intact |-> ~Short(w), bstatus |-> 200]
       [] OTHER            -> [status |-> 200, forwarded |-> TRUE, intact |-> TRUE, bstatus |-> 200]
 
-(* ServerPool.buildResponse: limit selection, any error => 500 with an empty body *)
+(* ServerPool.buildResponse: compression.compress first (the length becomes unknown, the body grows by
+   the gzip framing, a body that breaks off makes the compress reader fail), then limit selection and
+   FetchPayload; any error => 500 with an empty body *)
 L_RespModel(inner, outer, dflt, w) ==
-    LET f == FetchPayload(IF inner # 0 THEN inner ELSE outer, IF w.enc = "cl" THEN w.declared ELSE -1, w.actual, dflt) IN
-    CASE f.k \in {"toolarge", "err"} -> [status |-> 500, intact |-> w.actual = 0, complete |-> TRUE, got |-> 0, bstatus |-> 200]
-      [] f.k = "stream" -> [status |-> 200, intact |-> ~Short(w), complete |-> ~Short(w), got |-> w.actual, bstatus |-> 200]
+    LET f == FetchPayload(IF inner # 0 THEN inner ELSE outer,
+                          IF w.comp THEN -1 ELSE IF w.enc = "cl" THEN w.declared ELSE -1,
+                          IF w.comp THEN w.actual + LimGz ELSE w.actual, w.comp /\ Short(w), dflt) IN
+    CASE f.k \in {"toolarge", "err"} -> [status |-> 500, intact |-> w.actual = 0 /\ ~Short(w), complete |-> TRUE, got |-> 0, bstatus |-> 200]
+      [] f.k = "stream" -> [status |-> 200, intact |-> ~Short(w), complete |-> ~Short(w), got |-> f.len, bstatus |-> 200]
       [] OTHER          -> [status |-> 200, intact |-> TRUE, complete |-> TRUE, got |-> f.len, bstatus |-> 200]
 =============================================================================
